@@ -416,7 +416,7 @@ def _sig_match(sig, feat):
 # --------------------------------------------------------------------------------------
 # reporting
 
-UNGROUPED = {"src", "index", "case", "program", "seed", "id", "ops", "ctxs", "depth", "throw_depth", "exit_inside_try", "exit_inside_catch", "has_call", "has_dflt", "a", "template", "ending", "steps"}
+UNGROUPED = {"src", "index", "case", "program", "seed", "id", "ops", "ctxs", "depth", "throw_depth", "exit_inside_try", "exit_inside_catch", "has_call", "has_dflt", "a", "template", "ending", "steps", "first", "last", "len", "fn", "k", "procs", "ncores"}
 
 
 class Report:
